@@ -1374,6 +1374,52 @@ def isnan(a):
     return math.isnan(a)
 
 
+def require(a, dtype=None, requirements=None):
+    """np.require: the SAME array when every requirement is already met (shim arrays are always
+    C-contiguous and aligned), a copy otherwise."""
+    reqs = set()
+    for r in (requirements or []):
+        reqs.add({'C_CONTIGUOUS': 'C', 'CONTIGUOUS': 'C', 'F_CONTIGUOUS': 'F', 'FORTRAN': 'F', 'ALIGNED': 'A',
+                  'WRITEABLE': 'W', 'OWNDATA': 'O', 'ENSUREARRAY': 'E'}.get(str(r).upper(), str(r).upper()))
+    if not isinstance(a, ndarray):
+        return array(a, dtype)
+    dt = _as_dtype(dtype, a.dtype)
+    need_copy = dt != a.dtype or ('W' in reqs and not a._b.writeable) or ('F' in reqs and a.ndim > 1) or \
+        ('O' in reqs and len(a._ix) != len(a._b.data))
+    if need_copy:
+        out = ndarray._new([_coerce(v, dt) for v in a._flat()], a.shape, dt)
+        return out
+    return a
+
+
+def unravel_index(indices, shape):
+    shape = tuple(s.__index__() for s in shape)
+    idx = [i.__index__() for i in (asarray(indices)._flat() if not _is_scalar(indices) else [indices])]
+    outs = [[] for _ in shape]
+    for i in idx:
+        if i < 0 or i >= _prod(shape):
+            raise ValueError("index %d is out of bounds for array with size %d" % (i, _prod(shape)))
+        rem = i
+        for k in range(len(shape) - 1, -1, -1):
+            outs[k].append(rem % shape[k])
+            rem //= shape[k]
+    if _is_scalar(indices):
+        return tuple(o[0] for o in outs)
+    return tuple(ndarray._new(o, (len(o),), int64) for o in outs)
+
+
+def ravel_multi_index(multi_index, dims):
+    dims = tuple(d.__index__() for d in dims)
+    cols = [asarray(m)._flat() for m in multi_index]
+    out = []
+    for t in zip(*cols):
+        acc = 0
+        for v, d in zip(t, dims):
+            acc = acc * d + v.__index__()
+        out.append(acc)
+    return ndarray._new(out, (len(out),), int64)
+
+
 def isclose(a, b, rtol=1e-5, atol=1e-8, equal_nan=False):
     """|a - b| <= atol + rtol * |b| elementwise (NumPy's definition)."""
     def one(x, y):
